@@ -438,6 +438,88 @@ api_harness!(no_local_parent_is_inert, stub_ready, {
     kani::assert(nlog() == 0, "inert_operations_send_nothing: nothing sent");
 });
 
+// C07 (D6): a property closure that itself uses the local-span API.  LocalSpan::add_properties
+// (real) borrows the thread's stack mutably and calls LocalSpanStack::add_properties with the user's
+// closure; the stub below stands for that function on its recording path, where it invokes the
+// closure (unit `local`: the closure is invoked exactly when the innermost scope is sampled and
+// below capacity).  The closure calls LocalSpan::add_event (real), which borrows the stack again.
+pub fn stub_stack_add_properties<K, V, I, F>(_this: &mut LocalSpanStack, properties: F)
+where
+    K: Into<std::borrow::Cow<'static, str>>,
+    V: Into<std::borrow::Cow<'static, str>>,
+    I: IntoIterator<Item = (K, V)>,
+    F: FnOnce() -> I,
+{
+    if kani::any() {
+        let it = properties();
+        std::mem::forget(it);
+    }
+}
+
+pub fn stub_stack_add_event(_this: &mut LocalSpanStack, event: crate::Event) {
+    std::mem::forget(event);
+}
+
+#[kani::proof]
+#[kani::unwind(4)]
+#[kani::stub(crate::collector::global_collector::send_command, rec_send)]
+#[kani::stub(crate::collector::global_collector::force_send_command, rec_force)]
+#[kani::stub(crate::collector::SpanId::next_id, stub_next_id)]
+#[kani::stub(fastant::Instant::now, stub_now)]
+#[kani::stub(crate::collector::global_collector::reporter_ready, stub_ready)]
+#[kani::stub(crate::local::local_span_stack::LocalSpanStack::add_properties, stub_stack_add_properties)]
+#[kani::stub(crate::local::local_span_stack::LocalSpanStack::add_event, stub_stack_add_event)]
+pub fn reentrant_property_closure() {
+    LocalSpan::add_properties(|| {
+        LocalSpan::add_event(crate::Event::new("e"));
+        [("k", "v")]
+    });
+}
+
+// control for the harness above: the same call with a closure that does not touch the API
+#[kani::proof]
+#[kani::unwind(4)]
+#[kani::stub(crate::collector::global_collector::send_command, rec_send)]
+#[kani::stub(crate::collector::global_collector::force_send_command, rec_force)]
+#[kani::stub(crate::collector::SpanId::next_id, stub_next_id)]
+#[kani::stub(fastant::Instant::now, stub_now)]
+#[kani::stub(crate::collector::global_collector::reporter_ready, stub_ready)]
+#[kani::stub(crate::local::local_span_stack::LocalSpanStack::add_properties, stub_stack_add_properties)]
+#[kani::stub(crate::local::local_span_stack::LocalSpanStack::add_event, stub_stack_add_event)]
+pub fn plain_property_closure() {
+    LocalSpan::add_properties(|| [("k", "v")]);
+    LocalSpan::add_event(crate::Event::new("e"));
+    kani::assert(nlog() == 0, "local_operations_send_nothing: nothing sent");
+}
+
+// C07 / C09 (D12): the scope stack is full -- LocalSpanStack::register_span_line answers None (unit
+// `local`: exactly when span_lines.len() >= capacity; the stub below is that answer).  A local-parent
+// guard created in that state must be inert: no panic when it is dropped, nothing sent, no context.
+pub fn stub_register_span_line_full(_this: &mut LocalSpanStack, collect_token: Option<crate::util::CollectToken>) -> Option<crate::local::local_span_stack::SpanLineHandle> {
+    drop(collect_token);
+    None
+}
+
+#[kani::proof]
+#[kani::unwind(4)]
+#[kani::stub(crate::collector::global_collector::send_command, rec_send)]
+#[kani::stub(crate::collector::global_collector::force_send_command, rec_force)]
+#[kani::stub(crate::collector::SpanId::next_id, stub_next_id)]
+#[kani::stub(fastant::Instant::now, stub_now)]
+#[kani::stub(crate::collector::global_collector::reporter_ready, stub_ready)]
+#[kani::stub(crate::local::local_span_stack::LocalSpanStack::register_span_line, stub_register_span_line_full)]
+pub fn guard_beyond_scope_limit() {
+    let i1 = any_item();
+    let s = Span::new(vec![i1], "s", None);
+    let g = s.set_local_parent();
+    kani::assert(SpanContext::current_local_parent().is_none(), "scope_beyond_limit_is_inert: no local parent is in effect");
+    let c = LocalCollector::start();
+    drop(c);
+    drop(g);
+    kani::assert(nlog() == 0, "scope_beyond_limit_is_inert: nothing is sent when the guard is dropped");
+    std::mem::forget(s);
+}
+
 // C17: a captured set pushed under a span is submitted shared, under that span; an empty set is not submitted
 api_harness!(push_child_spans_handle, stub_ready, {
     let i1 = any_item();
@@ -704,43 +786,61 @@ api_harness!(stream_in_span_item_call, stub_ready, {
     kani::assert(nlog() == 2 && rec(1).set_kind == 1 && rec(1).span_id == sid, "drop_finishes_span: dropping the adapter finishes the span once");
 });
 
-struct Snk { last: u8 }
+// the inner sink's answer is symbolic: res 0 = Ready(Ok), 1 = Ready(Err), anything else = Pending
+// (start_send: 0 = Ok, else Err)
+struct Snk { last: u8, res: u8 }
+fn snk_answer(res: u8) -> Poll<Result<(), ()>> { if res == 0 { Poll::Ready(Ok(())) } else if res == 1 { Poll::Ready(Err(())) } else { Poll::Pending } }
 impl Sink<u8> for Snk {
     type Error = ();
-    fn poll_ready(self: Pin<&mut Self>, _cx: &mut Context<'_>) -> Poll<Result<(), ()>> { unsafe { SEEN_IN_POLL = SpanContext::current_local_parent(); POLLED += 1; } Poll::Ready(Ok(())) }
-    fn start_send(mut self: Pin<&mut Self>, item: u8) -> Result<(), ()> { unsafe { SEEN_IN_POLL = SpanContext::current_local_parent(); POLLED += 1; } self.last = item; Ok(()) }
-    fn poll_flush(self: Pin<&mut Self>, _cx: &mut Context<'_>) -> Poll<Result<(), ()>> { unsafe { SEEN_IN_POLL = SpanContext::current_local_parent(); POLLED += 1; } Poll::Ready(Ok(())) }
-    fn poll_close(self: Pin<&mut Self>, _cx: &mut Context<'_>) -> Poll<Result<(), ()>> { unsafe { SEEN_IN_POLL = SpanContext::current_local_parent(); POLLED += 1; } Poll::Ready(Ok(())) }
+    fn poll_ready(self: Pin<&mut Self>, _cx: &mut Context<'_>) -> Poll<Result<(), ()>> { unsafe { SEEN_IN_POLL = SpanContext::current_local_parent(); POLLED += 1; } snk_answer(self.res) }
+    fn start_send(mut self: Pin<&mut Self>, item: u8) -> Result<(), ()> { unsafe { SEEN_IN_POLL = SpanContext::current_local_parent(); POLLED += 1; } self.last = item; if self.res == 0 { Ok(()) } else { Err(()) } }
+    fn poll_flush(self: Pin<&mut Self>, _cx: &mut Context<'_>) -> Poll<Result<(), ()>> { unsafe { SEEN_IN_POLL = SpanContext::current_local_parent(); POLLED += 1; } snk_answer(self.res) }
+    fn poll_close(self: Pin<&mut Self>, _cx: &mut Context<'_>) -> Poll<Result<(), ()>> { unsafe { SEEN_IN_POLL = SpanContext::current_local_parent(); POLLED += 1; } snk_answer(self.res) }
 }
 
-api_harness!(sink_in_span_close, stub_ready, {
-    let i1 = any_item();
-    kani::assume(i1.is_sampled);
-    let cid: usize = kani::any();
-    let span = Span::new(vec![i1], "sink", Some(cid));
-    let sid = id_of(&span);
-    let mut s = VSinkExt::<u8>::in_span(Snk { last: 0 }, span);
-    let waker = Waker::noop();
-    let mut cx = Context::from_waker(&waker);
-    let r = Pin::new(&mut s).poll_close(&mut cx);
-    kani::assert(r == Poll::Ready(Ok(())), "adapter_is_transparent: the close result is passed through");
-    let seen = unsafe { SEEN_IN_POLL };
-    kani::assert(seen.is_some() && seen.unwrap().span_id == sid, "span_is_local_parent_during_call: the adapter's span is the local parent inside poll_close");
-    kani::assert(SpanContext::current_local_parent().is_none(), "context_restored_after_call: no local parent after the call");
-    kani::assert(nlog() == 3, "close_finishes_span_exactly_once: local set, span, commit");
-    let (a, b, c) = (rec(0), rec(1), rec(2));
-    kani::assert(a.kind == 4 && a.set_kind == 2 && a.tok[0].parent_id == sid && b.kind == 4 && b.set_kind == 1 && b.span_id == sid && c.kind == 3 && c.collect_id == cid,
-        "local_spans_of_last_call_precede_span_finish: local spans of the call, then the span, then the commit");
-});
+// poll_close, one harness per answer of the inner sink (a symbolic answer in one harness exhausts CBMC)
+macro_rules! sink_close_harness {
+    ($name:ident, $res:expr) => {
+        api_harness!($name, stub_ready, {
+            let i1 = any_item();
+            kani::assume(i1.is_sampled);
+            let cid: usize = kani::any();
+            let res: u8 = $res;
+            let span = Span::new(vec![i1], "sink", Some(cid));
+            let sid = id_of(&span);
+            let mut s = VSinkExt::<u8>::in_span(Snk { last: 0, res }, span);
+            let waker = Waker::noop();
+            let mut cx = Context::from_waker(&waker);
+            let r = Pin::new(&mut s).poll_close(&mut cx);
+            kani::assert(r == snk_answer(res), "adapter_is_transparent: the close result (Ok, Err or Pending) is passed through");
+            let seen = unsafe { SEEN_IN_POLL };
+            kani::assert(seen.is_some() && seen.unwrap().span_id == sid, "span_is_local_parent_during_call: the adapter's span is the local parent inside poll_close");
+            kani::assert(SpanContext::current_local_parent().is_none(), "context_restored_after_call: no local parent after the call");
+            if res <= 1 {
+                // the close completed (successfully or with an error): the span is finished now
+                kani::assert(nlog() == 3, "close_finishes_span_exactly_once: local set, span, commit");
+                let (a, b, c) = (rec(0), rec(1), rec(2));
+                kani::assert(a.kind == 4 && a.set_kind == 2 && a.tok[0].parent_id == sid && b.kind == 4 && b.set_kind == 1 && b.span_id == sid && c.kind == 3 && c.collect_id == cid,
+                    "local_spans_of_last_call_precede_span_finish: local spans of the call, then the span, then the commit");
+            } else {
+                kani::assert(nlog() == 1 && rec(0).kind == 4 && rec(0).set_kind == 2, "pending_close_keeps_span_open: only the call's local spans are submitted");
+            }
+        });
+    };
+}
+sink_close_harness!(sink_in_span_close, 0);
+sink_close_harness!(sink_in_span_close_err, 1);
+sink_close_harness!(sink_in_span_close_pending, 2);
 
 api_harness!(sink_in_span_send, stub_ready, {
     let i1 = any_item();
     kani::assume(i1.is_sampled);
     let span = Span::new(vec![i1], "sink", None);
     let sid = id_of(&span);
-    let mut s = VSinkExt::<u8>::in_span(Snk { last: 0 }, span);
+    let res: u8 = kani::any();
+    let mut s = VSinkExt::<u8>::in_span(Snk { last: 0, res }, span);
     let r = Pin::new(&mut s).start_send(9);
-    kani::assert(r == Ok(()), "adapter_is_transparent: start_send result passed through");
+    kani::assert(r == (if res == 0 { Ok(()) } else { Err(()) }), "adapter_is_transparent: start_send result (Ok or Err) passed through");
     let seen = unsafe { SEEN_IN_POLL };
     kani::assert(seen.is_some() && seen.unwrap().span_id == sid, "span_is_local_parent_during_call: the adapter's span is the local parent inside start_send");
     kani::assert(SpanContext::current_local_parent().is_none(), "context_restored_after_call: no local parent after the call");
@@ -753,11 +853,12 @@ api_harness!(sink_in_span_flush, stub_ready, {
     kani::assume(i1.is_sampled);
     let span = Span::new(vec![i1], "sink", None);
     let sid = id_of(&span);
-    let mut s = VSinkExt::<u8>::in_span(Snk { last: 0 }, span);
+    let res: u8 = kani::any();
+    let mut s = VSinkExt::<u8>::in_span(Snk { last: 0, res }, span);
     let waker = Waker::noop();
     let mut cx = Context::from_waker(&waker);
     let r = Pin::new(&mut s).poll_flush(&mut cx);
-    kani::assert(r == Poll::Ready(Ok(())), "adapter_is_transparent: poll_flush result passed through");
+    kani::assert(r == snk_answer(res), "adapter_is_transparent: poll_flush result (Ok, Err or Pending) passed through");
     let seen = unsafe { SEEN_IN_POLL };
     kani::assert(seen.is_some() && seen.unwrap().span_id == sid, "span_is_local_parent_during_call: the adapter's span is the local parent inside poll_flush");
     kani::assert(SpanContext::current_local_parent().is_none(), "context_restored_after_call: no local parent after the call");
@@ -770,11 +871,12 @@ api_harness!(sink_in_span_ready, stub_ready, {
     kani::assume(i1.is_sampled);
     let span = Span::new(vec![i1], "sink", None);
     let sid = id_of(&span);
-    let mut s = VSinkExt::<u8>::in_span(Snk { last: 0 }, span);
+    let res: u8 = kani::any();
+    let mut s = VSinkExt::<u8>::in_span(Snk { last: 0, res }, span);
     let waker = Waker::noop();
     let mut cx = Context::from_waker(&waker);
     let r = Pin::new(&mut s).poll_ready(&mut cx);
-    kani::assert(r == Poll::Ready(Ok(())), "adapter_is_transparent: poll_ready result passed through");
+    kani::assert(r == snk_answer(res), "adapter_is_transparent: poll_ready result (Ok, Err or Pending) passed through");
     let seen = unsafe { SEEN_IN_POLL };
     kani::assert(seen.is_some() && seen.unwrap().span_id == sid, "span_is_local_parent_during_call: the adapter's span is the local parent inside poll_ready");
     kani::assert(SpanContext::current_local_parent().is_none(), "context_restored_after_call: no local parent after the call");
